@@ -80,7 +80,7 @@ def cases(rng, sc, nrandom=300):
         bits = ut.size() * 8
         widths = [w for w in BF_WIDTHS if w <= bits] if un != 'bool' else [1]
         for w in widths:
-            befores = sorted(set([0, min(3, bits - w), bits - w, (bits - w) // 2]))
+            befores = sorted(set(b for b in [0, 1, 2, 3, 5, (bits - w) // 2, bits - w - 1, bits - w] if 0 <= b <= bits - w))
             for before in befores:
                 agg = bitfield_struct(cs, ut, w, before)
                 pt = P(agg)
